@@ -16,7 +16,7 @@ F64 = torch.float64
 
 def name_of(cfg):
     k = cfg['kfac']
-    return (f"{cfg.get('gmodel', 'gpt2l')}/dp{cfg['dp']}xmp{cfg['mp']}/bias="
+    return (f"{cfg.get('gmodel', 'gpt2l')}/seq={cfg.get('seq', 0)}/dp{cfg['dp']}xmp{cfg['mp']}/bias="
             f"{cfg.get('bias', True)}/kl={k['kl_clip']}/cap="
             f"{k.get('allreduce_bucket_cap_mb', 25.0)}/F="
             f"{k.get('factor_update_steps', 1)}/I="
@@ -102,7 +102,7 @@ def oracle_for(cfg, stats=None):
                         continue
                     for pn, g in ev['P'].items():
                         same_shard = cr.model == cq.model
-                        replicated = pn == 'layers.2.bias'
+                        replicated = pn == '11.bias'
                         if same_shard or replicated:
                             e = K.rel_err(eq['P'][pn].to(F64), g.to(F64))
                             if not e <= 1e-6:
@@ -231,9 +231,12 @@ def configs(thorough, seed):
         kk = dict(damping=0.05, factor_decay=0.5, kl_clip=kl, lr=0.1,
                   allreduce_bucket_cap_mb=cap, factor_update_steps=f,
                   inv_update_steps=inv)
-        out.append({'dp': dp, 'mp': mp, 'bias': bias, 'batch': 2,
-                    'seed': seed, 'kfac': kk, 'loss_mult': 4.0,
-                    'gmodel': gm, 'history': [['train']] * 3})
+        c = {'dp': dp, 'mp': mp, 'bias': bias, 'batch': 2,
+             'seed': seed, 'kfac': kk, 'loss_mult': 4.0,
+             'gmodel': gm, 'history': [['train']] * 3}
+        if (len(out) + seed) % 2:
+            c['seq'] = 3   # (batch, seq, hidden) activations
+        out.append(c)
     return out
 
 
